@@ -287,11 +287,20 @@ class P:
                 self.eat()
         self.eat('{')
         fns = []
+        assoc = {}
         while not self.at('}'):
             at = self.attrs()
             skip = any('cfg(test)' in a or 'fc-verif' in a for a in at)
             self.vis()
             if self.at('type'):
+                self.eat('type')
+                an = self.eat()
+                if self.at('='):
+                    self.eat('=')
+                    try:
+                        assoc[an] = self.type_()
+                    except Unsupported:
+                        pass
                 while not self.at(';'):
                     self.eat()
                 self.eat(';')
@@ -320,6 +329,16 @@ class P:
                 fns.append(f)
         self.eat('}')
         base = first.split('<')[0]
+        # `Poll<Self::Output>` with `type Output = Vec<..>` in the same impl: spell the associated type out
+        def subst_assoc(f):
+            if f[0] != 'fn':
+                return f
+            ret = f[4]
+            for an, ty in assoc.items():
+                if ty != an:
+                    ret = re.sub(r'(?<![\w])' + an + r'(?![\w])', ty, ret)
+            return (f[0], f[1], f[2], f[3], ret, f[5])
+        fns = [subst_assoc(f) for f in fns]
         return ('impl', base, consts, trait, fns)
 
     def fn_(self):
@@ -565,7 +584,7 @@ class P:
             return ('block', self.block())
         if t == '..':
             self.eat('..')
-            if self.at(')') or self.at(','):
+            if self.at(')') or self.at(',') or self.at(']'):
                 return ('range', None, None)
             return ('range', None, self.binop(0, nostruct))
         if t == '|':
@@ -682,6 +701,7 @@ LEAN_TY = {'usize': 'Nat', 'bool': 'Bool', 'FixedBitSet': 'Rs.BitSet', 'Option<W
            'Poll<Option<(Key,Output)>>': 'Rs.Poll (Option (Nat × Nat))', 'Poll<Option<(Key,Item)>>': 'Rs.Poll (Option (Nat × Nat))',
            'Context': 'Nat',
            'Vec<S>': 'Rs.Kids', 'Vec<Fut>': 'Rs.Kids', 'Indexer': 'Idx.Indexer',
+           'FutureVec<Fut>': 'Rs.Kids', 'OutputVec<Output>': 'Rs.OutVec', 'Poll<Vec<Output>>': 'Rs.Poll (List Nat)',
            'Poll<Option<Item>>': 'Rs.Poll (Option Nat)', 'Poll<Output>': 'Rs.Poll Nat'}
 
 def lean_ty(ty, structs):
@@ -751,8 +771,12 @@ class Module:
             return self.resolve(e[2], cx)
         if k == 'block' and len(e[1]) == 1 and e[1][0][0] == 'tail':
             return self.resolve(e[1][0][1], cx)             # unsafe { expr }
-        if k == 'mcall' and e[2] in ('as_mut', 'get_unchecked_mut', 'as_ref', 'project') and not e[3]:
+        if k == 'mcall' and e[2] in ('as_mut', 'get_unchecked_mut', 'as_ref', 'project', 'deref_mut') and not e[3]:
             return self.resolve(e[1], cx)
+        if k == 'mcall' and e[2] == 'map_unchecked_mut' and len(e[3]) == 1 and e[3][0][0] == 'closure':
+            return self.resolve(e[1], cx)                 # Pin::map_unchecked_mut(|t| t.deref_mut()): the same child
+        if k == 'index' and e[2] == ('range', None, None):
+            return self.resolve(e[1], cx)                 # `&mut x[..]`: the whole of x
         if k == 'call' and e[1][-2:] == ['Pin', 'new_unchecked']:
             return self.resolve(e[2][0], cx)
         if k == 'call' and e[1][-2:] == ['Context', 'from_waker']:
@@ -832,6 +856,8 @@ class Module:
             if rt == 'WakerVec' and e[2] == 'readiness': return 'StdVec.ReadinessVec'
             if rt == 'WakerVec' and e[2] == 'get': return 'Option Wk'
             if rt == 'Rs.Kids' and e[2] == 'len': return 'Nat'
+            if rt == 'Rs.OutVec' and e[2] == 'take': return 'List Nat'
+            if (rt or '').startswith('Rs.PVec ') and e[2] in ('ready_indexes', 'pending_indexes', 'consumed_indexes'): return 'List Nat'
             if rt == 'Rs.Kids' and e[2] == 'is_empty': return 'Bool'
             if rt == 'Idx.Indexer' and e[2] == 'iter': return 'Idx.IndexIter'
             if rt == 'Nat' and e[2] == 'waker': return 'Nat'
@@ -849,6 +875,8 @@ class Module:
             return ('Option ' + t) if t else None
         if k == 'call' and e[1] == ['Key']:
             return 'Nat'
+        if k == 'call' and e[1] == ['range_upto']:
+            return 'List Nat'
         if k == 'call' and e[1][-1] in ('get_pin_mut_from_vec', 'get_pin_mut') and len(e[2]) == 2 and self.ty(e[2][0], cx) == 'Rs.Kids':
             return 'Option Member'
         if k == 'call' and e[1] == ['Poll', 'Ready']:
@@ -998,6 +1026,14 @@ class Module:
                 pk, tk = self.E(args[0], cx)
                 pi, ti = self.E(args[1], cx)
                 return pk + pi, f"(Rs.Kids.get {atom(tk)} {atom(ti)})"
+            if segs == ['OutputVec', 'uninit']:
+                p, t = self.E(args[0], cx)
+                return p, f"(Rs.OutVec.uninit {atom(t)})"
+            if segs == ['FutureVec', 'new']:
+                return self.E(args[0], cx)
+            if segs == ['ManuallyDrop', 'drop'] and self.ty(args[0], cx) == 'Member':
+                pm, tm = self.E(args[0], cx)
+                return pm + [f"let env__ := env__.emit (.childDropped {atom(tm)})"], '()'
             if segs == ['Indexer', 'new']:
                 p, t = self.E(args[0], cx)
                 v = cx.fresh()
@@ -1154,6 +1190,13 @@ class Module:
             return pr + pa, f"(WakerVec.get {atom(tr)} {atom(ta)})"
         if rt == 'Member' and name in ('poll', 'poll_next'):
             return self.child_poll(e, cx)
+        if (rt or '').startswith('Rs.PVec ') and name in ('ready_indexes', 'pending_indexes', 'consumed_indexes'):
+            pr, tr = self.E(recv, cx)
+            v = {'ready_indexes': 'ready', 'pending_indexes': 'pending', 'consumed_indexes': 'none_'}[name]
+            return pr, f"(Rs.PVec.indexesOf {atom(tr)} PS.PollState.{v})"
+        if rt == 'Rs.OutVec' and name == 'take':
+            cx.mutations += 1
+            return self.mcall_stmt(e, cx, True)
         if rt == 'Rs.Kids' and name == 'len':
             pr, tr = self.E(recv, cx)
             return pr, f"{tr}.len"
@@ -1338,6 +1381,50 @@ class Module:
             pr, tr = self.E(recv, cx)
             nv, rv = cx.fresh(), cx.fresh()
             return pr + [f"let ({nv}, {rv}) ← {self.fname(rt, name)} {atom(tr)}"] + self.assign_place(recv, nv, cx), rv
+        if rt == 'Rs.OutVec' and name == 'write':
+            pi, ti = self.E(args[0], cx)
+            pv, tv = self.E(args[1], cx)
+            pr, tr = self.E(recv, cx)
+            v = cx.fresh()
+            return pi + pv + pr + [f"let {v} ← Rs.OutVec.write {atom(tr)} {atom(ti)} {atom(tv)}"] + self.assign_place(recv, v, cx), None
+        if rt == 'Rs.OutVec' and name == 'drop':
+            pi, ti = self.E(args[0], cx)
+            pr, tr = self.E(recv, cx)
+            nv, rv = cx.fresh(), cx.fresh()
+            return pi + pr + [f"let ({nv}, {rv}) ← Rs.OutVec.drop {atom(tr)} {atom(ti)}"] + self.assign_place(recv, nv, cx) + \
+                [f"let env__ := env__.emit (.valDropped {rv})"], None
+        if rt == 'Rs.OutVec' and name == 'take':
+            pr, tr = self.E(recv, cx)
+            nv, rv = cx.fresh(), cx.fresh()
+            return pr + [f"let ({nv}, {rv}) ← Rs.OutVec.take {atom(tr)}"] + self.assign_place(recv, nv, cx), rv
+        if rt == 'Rs.Kids' and name == 'drop':
+            pi, ti = self.E(args[0], cx)
+            pr, tr = self.E(recv, cx)
+            v = cx.fresh()
+            return pi + pr + [f"let {v} ← Rs.Kids.get {atom(tr)} {atom(ti)}", f"let env__ := env__.emit (.childDropped {v})"], None
+        if name == 'for_each' and len(args) == 1 and args[0][0] == 'closure' and recv[0] == 'mcall' and recv[2] == 'iter_mut' \
+                and (self.ty(recv[1], cx) or '').startswith('Rs.PVec '):
+            # `<states>.iter_mut().for_each(|s| { debug_assert!(s.<test>()); s.<set>(); })`
+            x, body = args[0][1], args[0][2]
+            stmts = body[1] if body[0] == 'block' else [('tail', body)]
+            test, setter = None, None
+            for st_ in stmts:
+                ex = st_[1]
+                if ex[0] == 'assert' and ex[1][0] == 'mcall' and ex[1][1] == ('path', [x]):
+                    test = ex[1][2]
+                elif ex[0] == 'mcall' and ex[1] == ('path', [x]) and not ex[3]:
+                    setter = ex[2]
+                else:
+                    raise Unsupported("for_each body")
+            if setter is None:
+                raise Unsupported("for_each body")
+            pr, tr = self.E(recv[1], cx)
+            lines = list(pr)
+            if test:
+                lines.append(f"let _ ← Rs.PVec.assertAll {atom(tr)} (fun s => PS.PollState.{test} s)")
+            v = cx.fresh()
+            lines.append(f"let {v} ← Rs.PVec.mapAll {atom(tr)} (fun s => (PS.PollState.{setter} s).map (·.1))")
+            return lines + self.assign_place(recv[1], v, cx), None
         if rt == 'List Nat' and name == 'push':
             pa, ta = self.E(args[0], cx)
             pr, tr = self.E(recv, cx)
@@ -1541,6 +1628,16 @@ class Module:
         _, pat, it, body = s
         if cx.loop is not None:
             raise Unsupported("nested loops")
+        enum_child = None
+        if pat[0] == 'ptuple' and len(pat[1]) == 2 and all(q[0] == 'pbind' for q in pat[1]):
+            # `for (i, fut) in <children>.iter().enumerate()`
+            src0 = self.resolve(it, cx)
+            if not (src0[0] == 'mcall' and src0[2] == 'enumerate' and src0[1][0] == 'mcall' and src0[1][2] in ('iter', 'iter_mut')
+                    and self.ty(src0[1][1], cx) == 'Rs.Kids'):
+                raise Unsupported("loop over an enumeration of something that is not the children")
+            enum_child = (pat[1][1][1], src0[1][1])
+            pat = pat[1][0]
+            it = ('call', ['range_upto'], [('mcall', src0[1][1], 'len', [])])
         if pat[0] != 'pbind':
             raise Unsupported("loop pattern")
         var = pat[1]
@@ -1550,7 +1647,10 @@ class Module:
                 and self.ty(src[1], cx) != 'Idx.Indexer':
             src = self.resolve(src[1], cx)
         st = self.ty(src, cx)
-        if st == 'Idx.IndexIter' and src[0] == 'mcall' and src[2] == 'iter':
+        if src[0] == 'call' and src[1] == ['range_upto']:
+            pn, tn = self.E(src[2][0], cx)
+            ps, ts, st = pn, f"(List.range {atom(tn)})", 'List Nat'
+        elif st == 'Idx.IndexIter' and src[0] == 'mcall' and src[2] == 'iter':
             # `for i in <indexer>.iter()`: the iterator is drained up front (the body cannot touch it)
             pf, tf = self.E(src[1], cx)
             fuel = cx.fresh()
@@ -1559,7 +1659,7 @@ class Module:
             v = cx.fresh()
             ps, ts = ps0 + pi + [f"let {v} ← Idx.IndexIter.collect {fuel} {atom(ti)}"], v
             st = 'List Nat'
-        else:
+        elif st is not None:
             ps, ts = self.E(src, cx)
         if st == 'Rs.BTree':
             lst = f"{ts}.elems"
@@ -1574,7 +1674,14 @@ class Module:
         cx.loop, cx.loop_ret = tup, has_ret
         cx.types[var] = 'Nat'
         cx.after_block = []
-        body_lines = self.S(detail(list(body)), cx, ind + 2)
+        pre_body = []
+        if enum_child:
+            # the second component of the pattern is child number `var`
+            cname, kids = enum_child
+            pk, tk = self.E(kids, cx)
+            pre_body = ['  ' * (ind + 2) + l for l in pk + [f"let {cname} ← Rs.Kids.get {atom(tk)} {var}"]]
+            cx.types[cname] = 'Member'
+        body_lines = pre_body + self.S(detail(list(body)), cx, ind + 2)
         cx.loop, cx.loop_ret = None, False
         cx.types, cx.alias, cx.placealias, cx.muts, cx.after_block, cx.ret = saved
         out = [pad + l for l in ps]
@@ -1839,7 +1946,8 @@ class Module:
         # does the body wake anybody?
         cx.emits = 'wake_by_ref' in json.dumps(body)
         # does it poll children?  then the environment (scripts, handed-out wakers, event trace) is threaded through
-        cx.has_env = bool(re.search(r'"mcall", .{0,400}?"poll(_next)?"', json.dumps(body))) and \
+        cx.has_env = (bool(re.search(r'"mcall", .{0,400}?"poll(_next)?"', json.dumps(body))) or
+                      (name == 'drop' and selfkind == 'mut')) and \
             any(t in ('WakerVec', 'Rs.Kids', 'Rs.Slab') for _, t in self.structs.get(sname, []))
         if cx.has_env:
             binders += " (env__ : World)"
@@ -1926,16 +2034,18 @@ UNITS = [
     ('GrpS',   [('src/stream/stream_group.rs', ['StreamGroup'])]),
     ('MergeV', [('src/stream/merge/vec.rs', ['Merge'])]),
     ('RaceV',  [('src/future/race/vec.rs', ['Race'])]),
+    ('JoinV',  [('src/future/join/vec.rs', ['Join'])]),
 ]
 SKIP_FNS = {('InlineWakerArray', 'new'), ('InlineWakerVec', 'new')}
 
 GROUPS = {'Std': ['StdArr', 'StdVec'], 'Dir': ['DirArr', 'DirVec'], 'Idx': ['Idx'], 'PS': ['PS'], 'Grp': ['GrpF', 'GrpS'],
-          'Fam': ['MergeV', 'RaceV']}
+          'Fam': ['MergeV', 'RaceV'], 'Fam2': ['JoinV']}
 GROUP_IMPORTS = {'Std': ['Fc.Kernel'], 'Grp': ['FcGen.KSrcStd', 'FcGen.KSrcPS', 'Fc.RustEnv'],
-                 'Fam': ['FcGen.KSrcStd', 'FcGen.KSrcPS', 'FcGen.KSrcIdx', 'Fc.RustEnv']}
-GROUP_DEPS = {'Grp': ['Std', 'PS'], 'Fam': ['Std', 'PS', 'Idx'], 'GrpPoll': ['Grp'], 'RaceV': ['Fam']}
+                 'Fam': ['FcGen.KSrcStd', 'FcGen.KSrcPS', 'FcGen.KSrcIdx', 'Fc.RustEnv'],
+                 'Fam2': ['FcGen.KSrcStd', 'FcGen.KSrcPS', 'Fc.RustEnv']}
+GROUP_DEPS = {'Grp': ['Std', 'PS'], 'Fam': ['Std', 'PS', 'Idx'], 'GrpPoll': ['Grp'], 'RaceV': ['Fam'], 'MergeV': ['Fam'], 'Fam2': ['Std', 'PS']}
 # groups of tie theorems that have no generated file of their own (they talk about functions of another group's file)
-VIRTUAL_GROUPS = {'GrpPoll': ['GrpF', 'GrpS'], 'RaceV': ['RaceV']}
+VIRTUAL_GROUPS = {'GrpPoll': ['GrpF', 'GrpS'], 'RaceV': ['RaceV'], 'MergeV': ['MergeV']}
 # src/utils/wakers/vec/waker_vec.rs (std) is Arc / closure glue around the readiness set: modelled by hand here —
 # a table of `len` sub-wakers next to the shared set; `resize` resizes both
 WAKERVEC_PRELUDE = '''/-- hand-written model of `WakerVec` (utils/wakers/vec/waker_vec.rs, std): `nwakers` sub-wakers + the shared set -/
@@ -1974,6 +2084,8 @@ REQUIRED = {
     'Fam': ['MergeV.Merge.poll_next', 'RaceV.Race.poll'],
     'GrpPoll': ['GrpF.FutureGroup.poll_next_inner', 'GrpS.StreamGroup.poll_next_inner'],
     'RaceV': ['RaceV.Race.poll'],
+    'MergeV': ['MergeV.Merge.poll_next'],
+    'Fam2': ['JoinV.Join.poll', 'JoinV.Join.drop', 'JoinV.Join.new'],
     'Grp': ['GrpF.FutureGroup.' + f for f in ('with_capacity', 'len', 'capacity', 'is_empty', 'remove', 'contains_key', 'reserve', 'insert')]
            + ['GrpS.StreamGroup.' + f for f in ('with_capacity', 'len', 'capacity', 'is_empty', 'remove', 'contains_key', 'reserve', 'insert')],
 }
@@ -2034,12 +2146,12 @@ def translate_unit(repo, ns, files, report, ext=None):
             mod.out.append(f"def {sname}.extraFields : List String := {json.dumps(r['extra'] if r else [])}")
             mod.out.append("")
     for sname in list(mod.structs):
-        if sname in ('FutureGroup', 'StreamGroup', 'Merge', 'Race') and sname not in getattr(mod, 'ext_names', ()):
+        if sname in ('FutureGroup', 'StreamGroup', 'Merge', 'Race', 'Join') and sname not in getattr(mod, 'ext_names', ()):
             tags = {'Rs.Slab': 'roleSlab', 'WakerVec': 'roleWakers', 'Rs.PVec PS.PollState': 'roleStates',
                     'Rs.BTree': 'roleKeys', 'Nat': 'roleCapacity', 'List Nat': 'roleQueue'}
-            if sname in ('Merge', 'Race'):
+            if sname in ('Merge', 'Race', 'Join'):
                 tags = {'Rs.Kids': 'roleKids', 'Idx.Indexer': 'roleIndexer', 'WakerVec': 'roleWakers',
-                        'Rs.PVec PS.PollState': 'roleStates', 'Nat': 'roleCount', 'Bool': 'roleDone'}
+                        'Rs.PVec PS.PollState': 'roleStates', 'Nat': 'roleCount', 'Bool': 'roleDone', 'Rs.OutVec': 'roleItems'}
             fl = mod.structs[sname]
             roles = {}
             mod.out.append(f"/-- roles of the fields of `{sname}` (each is the only field of its type) -/")
@@ -2096,7 +2208,7 @@ def translate(repo):
                "", "set_option linter.unusedVariables false", "",
                "namespace Fc.Src", "open Fc", ""]
         ext = None
-        if g in ('Grp', 'Fam'):
+        if g in ('Grp', 'Fam', 'Fam2'):
             mods = report.get('_mods', {})
             ext = {'structs': {}, 'enums': {}, 'fns': {}}
             sv, ps = mods.get('StdVec'), mods.get('PS')
